@@ -396,3 +396,24 @@ package component_definition
 //@ loop 1 invariant [bounds] 0 <= _done && _done <= len(properties)
 //@ loop 1 invariant [stored-so-far] forall(j, int, implies(0 <= j && j < _done, 0 <= GroupPos[j] && GroupPos[j] < len(GroupOf(m, properties[j].PropertyType)) && GroupOf(m, properties[j].PropertyType)[GroupPos[j]] == properties[j]), properties[j])
 //@ loop 1 invariant [earlier-kept] forall(t, PropertyType, forall(k, int, implies(0 <= k && k < len(old(GroupOf(m, t))), len(GroupOf(m, t)) >= len(old(GroupOf(m, t))) && GroupOf(m, t)[k] == old(GroupOf(m, t)[k]))))
+
+// ---- diagnostic names (C11: which logger prefix a field gets) ---------------------------------------------------------
+// HolderStr / MetaStr name what Holder.String / Meta.String render: the component's own name for a Meta and for a
+// top-level holder, the path through the embedded structs for an embedded holder. Trusted naming contracts (the
+// rendering itself is fmt.Sprintf).
+//@ spec func HolderStr(h *Holder) string
+//@ spec func MetaStr(m *Meta) string
+//@ func (*Holder).String
+//@ trusted
+//@ pure
+//@ terminates
+//@ requires [holder] s != nil
+//@ assigns nothing
+//@ ensures [named] result == HolderStr(s)
+//@ func (*Meta).String
+//@ trusted
+//@ pure
+//@ terminates
+//@ requires [meta] m != nil
+//@ assigns nothing
+//@ ensures [named] result == MetaStr(m)
